@@ -1,5 +1,5 @@
-(* C08 theorems: statements are the *_stmt definitions of ProofsProps.v; T is any type, D any record of operations
-   satisfying the field laws FieldOK (Spec.v). *)
+(* C08 theorems: statements are the *_stmt definitions of ProofsProps.v (bundled per group of operations); T is any type,
+   D any record of operations satisfying the field laws FieldOK (Spec.v). *)
 From Coq Require Import List.
 From C08 Require Import Model Spec ProofsBasic ProofsProps.
 Theorem C08_spec_ring_laws : forall T (D : Dom T), FieldOK D -> SpecRing_stmt D.
@@ -11,45 +11,45 @@ Print Assumptions C08_schoolbook_on_ranges.
 Theorem C08_karatsuba_eq_schoolbook_every_threshold : forall T (D : Dom T), FieldOK D -> KaraRange_stmt D.
 Proof. exact (@KaraRange_ok). Qed.
 Print Assumptions C08_karatsuba_eq_schoolbook_every_threshold.
-Theorem C08_mul_correct_normalised : forall T (D : Dom T), FieldOK D -> Mul_stmt D.
-Proof. exact (@Mul_ok). Qed.
-Print Assumptions C08_mul_correct_normalised.
-Theorem C08_stdmul_correct : forall T (D : Dom T), FieldOK D -> Stdmul_stmt D.
-Proof. exact (@Stdmul_ok). Qed.
-Print Assumptions C08_stdmul_correct.
-Theorem C08_karamul_first_level_correct : forall T (D : Dom T), FieldOK D -> Karamul_stmt D.
-Proof. exact (@Karamul_ok). Qed.
-Print Assumptions C08_karamul_first_level_correct.
-Theorem C08_division_identity_partial : forall T (D : Dom T), FieldOK D -> DivisionIdentity_stmt D.
-Proof. exact (@DivisionIdentity_ok). Qed.
-Print Assumptions C08_division_identity_partial.
-Theorem C08_bezout : forall T (D : Dom T), FieldOK D -> Bezout_stmt D.
-Proof. exact (@Bezout_ok). Qed.
-Print Assumptions C08_bezout.
-Theorem C08_normal_form_and_zero : forall T (D : Dom T), FieldOK D -> Normal_stmt D.
-Proof. exact (@Normal_ok). Qed.
-Print Assumptions C08_normal_form_and_zero.
-Theorem C08_add_sub_value_and_normal_form : forall T (D : Dom T), FieldOK D -> AddSub_stmt D.
-Proof. exact (@AddSub_ok). Qed.
-Print Assumptions C08_add_sub_value_and_normal_form.
-Theorem C08_raw_add_normal_refuted : ~ RawAddNormal_stmt GF2Dom.
-Proof. exact RawAddNormal_refuted. Qed.
-Print Assumptions C08_raw_add_normal_refuted.
-Theorem C08_powmod_every_exponent_partial : forall T (D : Dom T), FieldOK D -> PowmodCong_stmt D.
-Proof. exact (@PowmodCong_ok). Qed.
-Print Assumptions C08_powmod_every_exponent_partial.
-Theorem C08_sqr_eq_schoolbook_square : forall T (D : Dom T), FieldOK D -> Sqr_stmt D.
-Proof. exact (@Sqr_ok). Qed.
-Print Assumptions C08_sqr_eq_schoolbook_square.
+Theorem C08_public_products : forall T (D : Dom T), FieldOK D -> Products_stmt D.
+Proof. exact (@Products_ok). Qed.
+Print Assumptions C08_public_products.
+Theorem C08_squaring : forall T (D : Dom T), FieldOK D -> Squaring_stmt D.
+Proof. exact (@Squaring_ok). Qed.
+Print Assumptions C08_squaring.
+Theorem C08_middle_and_truncated_product : forall T (D : Dom T), FieldOK D -> MidTrunc_stmt D.
+Proof. exact (@MidTrunc_ok). Qed.
+Print Assumptions C08_middle_and_truncated_product.
 Theorem C08_newton_inverse_mod_power_of_X : forall T (D : Dom T), FieldOK D -> Newton_stmt D.
 Proof. exact (@Newton_ok). Qed.
 Print Assumptions C08_newton_inverse_mod_power_of_X.
-Theorem C08_gcd_divides_partial : forall T (D : Dom T), FieldOK D -> GcdDivides_stmt D.
-Proof. exact (@GcdDivides_ok). Qed.
-Print Assumptions C08_gcd_divides_partial.
-Theorem C08_lcm_common_multiple_partial : forall T (D : Dom T), FieldOK D -> LcmMultiple_stmt D.
-Proof. exact (@LcmMultiple_ok). Qed.
-Print Assumptions C08_lcm_common_multiple_partial.
+Theorem C08_division : forall T (D : Dom T), FieldOK D -> DivisionAll_stmt D.
+Proof. exact (@DivisionAll_ok). Qed.
+Print Assumptions C08_division.
+Theorem C08_euclid_gcd_lcm_invmod : forall T (D : Dom T), FieldOK D -> Euclid_stmt D.
+Proof. exact (@Euclid_ok). Qed.
+Print Assumptions C08_euclid_gcd_lcm_invmod.
+Theorem C08_pow_and_powmod : forall T (D : Dom T), FieldOK D -> Powers_stmt D.
+Proof. exact (@Powers_ok). Qed.
+Print Assumptions C08_pow_and_powmod.
+Theorem C08_powmod_exponent0_unit_modulus_refuted : ~ Powmod_e0_unit_stmt GF2Dom.
+Proof. exact Powmod_e0_unit_refuted. Qed.
+Print Assumptions C08_powmod_exponent0_unit_modulus_refuted.
+Theorem C08_add_sub_scalar_fused_forms : forall T (D : Dom T), FieldOK D -> Linear_stmt D.
+Proof. exact (@Linear_ok). Qed.
+Print Assumptions C08_add_sub_scalar_fused_forms.
+Theorem C08_raw_add_normal_refuted : ~ RawAddNormal_stmt GF2Dom.
+Proof. exact RawAddNormal_refuted. Qed.
+Print Assumptions C08_raw_add_normal_refuted.
+Theorem C08_eval_diff_reverse_compose : forall T (D : Dom T), FieldOK D -> EvalDiffRev_stmt D.
+Proof. exact (@EvalDiffRev_ok). Qed.
+Print Assumptions C08_eval_diff_reverse_compose.
+Theorem C08_normal_form_zero_and_decisions : forall T (D : Dom T), FieldOK D -> NormalDecide_stmt D.
+Proof. exact (@NormalDecide_ok). Qed.
+Print Assumptions C08_normal_form_zero_and_decisions.
+Theorem C08_pseudo_division : forall T (D : Dom T), FieldOK D -> Pdivmod_stmt D.
+Proof. exact (@Pdivmod_ok). Qed.
+Print Assumptions C08_pseudo_division.
 Theorem C08_hypotheses_satisfiable : FieldOK GF2Dom.
 Proof. exact GF2_ok. Qed.
 Print Assumptions C08_hypotheses_satisfiable.
